@@ -30,6 +30,11 @@ type JobGroup struct {
 	MaxPaths    int64
 	MaxFailures int // stop a job after this many failing paths (0 = 5000)
 	// Lemma: the group checks an inductive step from a constructed state; its native replay only confirms a
+	// OptionalUnsupported: when a path of a job ends as "unsupported" with a message containing this text, the
+	// encoding of this group cannot execute the implementation under test (a stated limitation, e.g. the lazily
+	// defined window cannot run copy()); the job is then recorded as not applicable instead of inconclusive.
+	// Only for groups whose obligation is also covered by another group with an ordinary encoding.
+	OptionalUnsupported string
 	// failure through a history of public calls, so an unconfirmed one is a lemma that does not fit, not an engine error
 	Lemma  bool
 	Solver string
@@ -318,6 +323,27 @@ func cmdCheck(argv []string) int {
 		for _, jr := range results {
 			res := jr.res
 			ev.addJob(g, jr)
+			if g.OptionalUnsupported != "" {
+				na := false
+				for i := range res.Outcomes {
+					if res.Outcomes[i].Kind == "unsupported" && strings.Contains(res.Outcomes[i].Msg, g.OptionalUnsupported) {
+						na = true
+					}
+				}
+				if na {
+					ev.NotApplicable = append(ev.NotApplicable, fmt.Sprintf("%s%v: %s", g.Name, jr.args, g.OptionalUnsupported))
+					fmt.Printf("NOTE property=%s %s%v not applicable to this implementation: %s (the obligation is covered by the other groups)\n", id, g.Name, jr.args, g.OptionalUnsupported)
+					kept := res.Outcomes[:0]
+					for _, o := range res.Outcomes {
+						if o.Kind != "unsupported" {
+							kept = append(kept, o)
+						}
+					}
+					res.Outcomes = kept
+					res.Incomplete = ""
+					res.Unknowns = 0
+				}
+			}
 			if res.Incomplete != "" && !(g.Twin) {
 				inconclusive = append(inconclusive, fmt.Sprintf("%s%v: %s", g.Name, jr.args, res.Incomplete))
 			}
